@@ -629,6 +629,11 @@ func (ex *Exec) execFrom(st *State, b *ssa.BasicBlock, idx int, pred *ssa.BasicB
 						c.st.top().vals[y] = c.val
 						if f := y.Common().StaticCallee(); f != nil {
 							c.st.top().names["call_"+f.Name()] = namedVal{v: c.val}
+							if c.val.K == VTuple {
+								for i, e := range c.val.Fs {
+									c.st.top().names[fmt.Sprintf("call_%s_%d", f.Name(), i)] = namedVal{v: e}
+								}
+							}
 						}
 					}
 					outs = append(outs, ex.execFrom(c.st, b, i+1, pred)...)
